@@ -216,6 +216,8 @@ class ElfWriter:
         # Write sections contained in images:
         for image in self.obj.images:
             self.align_to(self.page_size)
+            # p_offset must equal p_vaddr modulo p_align:
+            self.f.write(bytes(image.address % self.page_size))
             file_offset = self.f.tell()
 
             for section in image.sections:
